@@ -340,6 +340,7 @@ def C08(tier):
     c.require("long_range_on_nonempty", c.stat("c08_long_range_on_nonempty"), 200)
     c.require("long_range_on_runs_container", c.stat("c08_long_range_on_runs_container"), 20)
     c.require("set_algebra_ops", c.stat("c08_set_algebra_ops"), 5000)
+    c.require("multi_run_containers", c.stat("c08_multi_run_containers"), 500, "(run containers with several runs, obtained by deserialising a run-length serialisation)")
     c.assumptions = ["ranges are half-open [min,max) with max <= 65535 (uint16_t API)",
                      "leak monitor: every block allocated during a history (link-time malloc wrapper) must be freed once all objects are freed"]
     c.finish(c.stat("cases"), c.extra["per_cfg"].get("distinct_nontrivial@rel", 0),
